@@ -98,13 +98,17 @@ func newC07World() *c07World {
 		WrapAnteAcc: func(a authante.AccountKeeper) authante.AccountKeeper { return world.FaultAnteAcc{Inner: a, F: cw.f} },
 		WrapBankMsg: func(m banktypes.MsgServer) banktypes.MsgServer { return c07BankMsg{m, &cw.limits} },
 	})
+	// the bank already knows display metadata for denom B (an operator may put any metadata into the bank's
+	// genesis); opchild has no pair for it yet
+	cw.w.BK.SetDenomMetaData(cw.w.Ctx, banktypes.Metadata{Base: c07DenB, Display: c07DenB, Name: "pre-registered", Symbol: "PRE",
+		DenomUnits: []*banktypes.DenomUnit{{Denom: c07DenB, Exponent: 0}}})
 	cw.starts = map[string]sdk.Context{"fresh": cw.w.Ctx}
 	// second start state: one credited deposit (pairs denom A) and one refunded deposit
 	ctx, _ := cw.w.Ctx.CacheContext()
 	cw.f.Reset(nil)
 	ex := world.Addr("executor").String()
 	for i, to := range []string{world.Addr("alice").String(), "malformed"} {
-		r := cw.w.Deliver(ctx, opchildtypes.NewMsgFinalizeTokenDeposit(ex, "l1sender", to, sdk.NewInt64Coin(c07DenA, 5), uint64(i+1), 3, "uxx", nil))
+		r := cw.w.Deliver(ctx, opchildtypes.NewMsgFinalizeTokenDeposit(ex, "\tl1 sender ", to, sdk.NewInt64Coin(c07DenA, 5), uint64(i+1), 3, "uxx", nil))
 		if !r.OK() {
 			cw.setupViolation = tagged(viol("finalization-at-expected-sequence-succeeds", "building the second start state: deposit %d to %q failed: %v", i+1, to, r.Err), "rcpt", to)
 			cw.starts["after-deposits"] = cw.w.Ctx
@@ -123,7 +127,7 @@ func newC07World() *c07World {
 	// recipient, which left a plain account there (from then on the module account cannot be created)
 	sctx, _ := pctx.CacheContext()
 	cw.f.Reset(nil)
-	if r := cw.w.Deliver(sctx, opchildtypes.NewMsgFinalizeTokenDeposit(ex, "l1sender", authtypes.NewModuleAddress(opchildtypes.ModuleName).String(), sdk.NewInt64Coin(c07DenA, 0), 1, 3, "uxx", nil)); !r.OK() {
+	if r := cw.w.Deliver(sctx, opchildtypes.NewMsgFinalizeTokenDeposit(ex, "\tl1 sender ", authtypes.NewModuleAddress(opchildtypes.ModuleName).String(), sdk.NewInt64Coin(c07DenA, 0), 1, 3, "uxx", nil)); !r.OK() {
 		cw.setupViolation = tagged(viol("finalization-at-expected-sequence-succeeds", "building the fourth start state: %v", r.Err), "rcpt", "opchild-module")
 	}
 	cw.starts["module-address-squatted"] = sctx
@@ -429,7 +433,7 @@ func (cw *c07World) exec(in c07Input, plan map[int]string, wantPrefix []string) 
 		rcpt = a
 	}
 	before := cw.snap(ctx, rcpt, denom)
-	msg := opchildtypes.NewMsgFinalizeTokenDeposit(world.Addr("executor").String(), "l1sender", to, sdk.NewCoin(denom, amt), before.nextL1, 9, baseDenom, nil)
+	msg := opchildtypes.NewMsgFinalizeTokenDeposit(world.Addr("executor").String(), "\tl1 sender ", to, sdk.NewCoin(denom, amt), before.nextL1, 9, baseDenom, nil)
 	data, oks := cw.payload(ctx, in.Payload, msg)
 	msg.Data = data
 	d0 := cw.w.Digest(ctx)
@@ -519,7 +523,7 @@ func (cw *c07World) exec(in c07Input, plan map[int]string, wantPrefix []string) 
 		if !dSupply.IsZero() || !dRcpt.IsZero() {
 			return obs, tagged(viol("refund-leaves-no-net-mint", "%s: refunded but supply %+v, recipient %+v", label, dSupply, dRcpt), "payload", in.Payload)
 		}
-		want := map[string]string{"from": to, "to": "l1sender", "denom": denom, "base_denom": baseDenom, "amount": amt.String(), "l2_sequence": strconv.FormatUint(before.nextL2, 10)}
+		want := map[string]string{"from": to, "to": "\tl1 sender ", "denom": denom, "base_denom": baseDenom, "amount": amt.String(), "l2_sequence": strconv.FormatUint(before.nextL2, 10)}
 		if (in.Start == "after-deposits" || in.Start == "module-address-squatted") && in.Denom == "A" {
 			want["base_denom"] = "uxx"
 		}
